@@ -145,6 +145,11 @@ VH_DRIVER(parse_log){
     std::vector<Text> texts; late_shapes(texts); ip_family(R,texts,false); { auto c=corpus_uris(R,false,600); texts.insert(texts.end(),c.begin(),c.end()); }
     for(const char*s:{"s://u%41@h%4a:1/p%2Fq?a%5b#f%7E","//[::ffff:1.2.3.4]:80/","//[v1F.a:b]/","//[1:2:3:4:5:6:7:8]","http://user:pw@www.example.org:8080/a/b/../c?x=1&y=2#frag","//255.255.255.255:65535","a%41%42:b"}) texts.push_back(T(s));
     std::vector<Text> trails={T("]"),T("0123456789"),T("abcdefABCDEF%41"),T(":@/?#[]"),Text(8,255),T("...1.1.1]")};
+    // a syntax error AFTER a complete component: every kind of authority (each allocates differently) followed by every kind of
+    // error in port / path / query / fragment, through all six entry points (the state-based ones do no second free of their own)
+    { const char* auths[]={"//1.2.3.4","//u@1.2.3.4","//u:p@10.0.0.1:8080","//[::1]","//u@[::ffff:1.2.3.4]:80","//[v1.x]","//h","//u@h:1","s://1.2.3.4","//1.2.3.4:","//"};
+      const char* errs[]={"/%","/%4","/%zz","/a/b/c%","/a b","/a/b[","?%","?q%4","?a b","#%","#f%zz","#a#b","/a?b#c%g",":x","/a/../%","/\\"};
+      for(auto a:auths) for(auto e:errs) log_input(S,T(a)+T(e),all,"flush"); }
     size_t lim= g.thorough? texts.size() : std::min<size_t>(texts.size(),(size_t)want/20);
     double step=(double)texts.size()/lim;
     for(size_t ti=0;ti<lim;++ti){ const Text&t=texts[(size_t)(ti*step)];
